@@ -241,6 +241,8 @@ pub fn eval_node<F: FnMut(&GraphColoredVertices, &str)>(
                     // check edge case of an empty domain (in that case we cannot restrict the domain,
                     // there would be an error)
                     if domain_set.is_empty() {
+                        // the variable is no longer free once we leave this node
+                        eval_context.free_var_domains.remove(&var);
                         return match op.clone() {
                             HybridOp::Bind => graph.mk_empty_colored_vertices(),
                             HybridOp::Exists => graph.mk_empty_colored_vertices(),
